@@ -117,6 +117,8 @@ def generate(streams: core.Streams, tier: str) -> dict:
         if gen.chance(f, 0.25):
             exc = "NotImplementedError" if gen.chance(f, 0.15) else gen.pick(f, SIGMA_EXCS)
             faults.append({"rule": d["title"], "stage": gen.pick(f, STAGES), "nth": f.randint(1, 3), "exc": exc})
+            if exc == "NotImplementedError" and gen.chance(f, 0.4):
+                faults[-1]["bare"] = True  # raise NotImplementedError without arguments
     disabled = [d["title"] for d in docs if gen.chance(s, 0.1)]
     sc = {
         "cls": gen.pick(s, CLASSES),
@@ -243,7 +245,9 @@ def execute(scenario: dict) -> dict:
         return "unloadable" not in a and ("ok" in a or a.get("sigma") or a.get("exc") == "NotImplementedError"
                                           or (a.get("exc") == "TypeError" and "Unexpected value type" in str(a.get("msg")))
                                           # a timestamp part the backend's table does not know (same stage)
-                                          or "TimestampPart" in str(a.get("msg")))
+                                          or "TimestampPart" in str(a.get("msg"))
+                                          # an injected fault fired: whatever comes out, its cause is a listed stage
+                                          or bool(a.get("fired")))
 
     keep = [i for i, a in enumerate(alone) if _listed(a)]
     dropped = sum(1 for a in alone if "unloadable" in a)
